@@ -19,6 +19,9 @@ def find_spec(eng, fr, node):
     k = loop_ordinal(fi, node)
     reg = eng.reg
     con = reg.contracts.get(fi.qualname)
+    cur = getattr(reg, 'current', None)
+    if cur is not None and cur.target == fi.qualname:
+        con = cur      # several facets for one function: the loop clauses of the facet under verification, not the primary's
     if con is None or k not in con.loops:
         con = reg.loop_contracts.get(fi.qualname) if hasattr(reg, 'loop_contracts') else None
     if con is None or k not in con.loops:
@@ -438,6 +441,9 @@ def comp_spec(eng, fr, node):
     if fi is None:
         return None
     con = eng.reg.contracts.get(fi.qualname)
+    cur = getattr(eng.reg, 'current', None)
+    if cur is not None and cur.target == fi.qualname:
+        con = cur
     if con is None or not con.comps:
         con = eng.reg.loop_contracts.get(fi.qualname)
     if con is None or not con.comps:
